@@ -4,6 +4,6 @@ pkg=$1; shift; h=$1; shift
 d=/verif/tmp/dev_$pkg; rm -rf $d; mkdir -p $d
 sed "s/^package PKG/package $pkg/" /verif/harness/common/zz_vf_lib.go > $d/zz_vf_lib.go
 cp /verif/harness/$pkg/*.go $d/
-if [ "$pkg" = streams ]; then GEN="gen_c11.py gen_c12.py gen_c13.py gen_c14.py gen_c18.py"; fi
+if [ "$pkg" = streams ]; then GEN="gen_c01.py gen_c11.py gen_c12.py gen_c13.py gen_c14.py gen_c18.py"; fi
 for g in $GEN; do python3 /verif/checks/$g ${VERIF_REPO:-/repo}/astool $d ${VERIF_REPO:-/repo}; done
 cd /verif/engine && GOFLAGS=-mod=mod GOPROXY=off GOSUMDB=off GOTOOLCHAIN=local go build -o symgo ./cmd/symgo && ./symgo run -repo ${VERIF_REPO:-/repo} -pkg ./$pkg -overlay $d -harness $h -out $d/res.json "$@"
